@@ -110,6 +110,13 @@ func init() {
 	props["C01"] = &propDef{
 		run: func(c *Ctx) {
 			famParseSpec(c, 120000*c.Scale)
+			sdp := &specPool{}
+			defer sdp.close()
+			famPathShapes(c, defaultCfg, allFields, "path-shapes", func(d *Driver, base *string, input string, io Obs, idx int) {
+				sd := sdp.get()
+				defer sdp.put(sd)
+				c.checkAgainstSpec(sd, base, input, io, "path-shapes", idx)
+			})
 		},
 		rule: "the 820 WPT vectors + grammar-directed, mutated and hostile generated inputs with and without base; each compared (a) between the implementation and the Coq model on all 20 observables incl. error type and (b) between the implementation and the extracted Spec transcription of the standard on the ten API getters and success/failure; distinct = distinct (base, input); non-trivial = got past the scheme state",
 	}
